@@ -87,119 +87,159 @@ pub struct BatchResult {
     pub wall_s: f64,
 }
 
-pub struct Watch {
-    pub slots: Vec<(AtomicU64, AtomicU64)>, // (index+1, start millis)
-    pub start: Instant,
-    pub done: AtomicBool,
+struct Slot {
+    /// scenario index + 1 while a scenario is being executed, 0 otherwise
+    idx: AtomicU64,
+    /// start of that scenario, milliseconds since batch start
+    start: AtomicU64,
+    /// the watchdog gave up on this worker (it never returned from a scenario)
+    abandoned: AtomicBool,
 }
 
-pub fn run_batch(p: &dyn Prop, seed: u64, thorough: bool, budget: u64, workers: usize, out_dir: &str) -> BatchResult {
-    let t0 = Instant::now();
-    let next = Arc::new(AtomicU64::new(0));
-    let first_bad = Arc::new(AtomicU64::new(u64::MAX));
-    let results: Arc<Mutex<Vec<(Stats, u64, u64, Option<(u64, Scenario, String, String)>)>>> = Arc::new(Mutex::new(Vec::new()));
-    let watch = Arc::new(Watch {
-        slots: (0..workers).map(|_| (AtomicU64::new(0), AtomicU64::new(0))).collect(),
-        start: t0,
-        done: AtomicBool::new(false),
-    });
-    const BLOCK: u64 = 256;
+struct Shared {
+    p: &'static dyn Prop,
+    seed: u64,
+    thorough: bool,
+    budget: u64,
+    next: AtomicU64,
+    first_bad: AtomicU64,
+    live: AtomicU64,
+    slots: Vec<Slot>,
+    results: Mutex<Vec<(Stats, u64, u64, Option<(u64, Scenario, String, String)>)>>,
+    t0: Instant,
+}
 
-    std::thread::scope(|s| {
-        // watchdog: the only use of real time; it never influences a scenario
-        {
-            let watch = watch.clone();
-            let pid = p.id();
-            let od = out_dir.to_string();
-            s.spawn(move || {
-                while !watch.done.load(Ordering::Relaxed) {
-                    std::thread::sleep(std::time::Duration::from_millis(200));
-                    let now = watch.start.elapsed().as_millis() as u64;
-                    for (idx, st) in &watch.slots {
-                        let i = idx.load(Ordering::Relaxed);
-                        let t = st.load(Ordering::Relaxed);
-                        if i > 0 && now > t + 10_000 {
-                            // a scenario has been running for 10 s: hang
-                            let sc_seed = derive(seed, i - 1);
-                            let mut sc = crate::props::by_id(pid).unwrap().generate(sc_seed, thorough);
-                            sc.class = "hang".into();
-                            let path = format!("{od}/replays/{pid}-{sc_seed}.replay");
-                            let _ = std::fs::create_dir_all(format!("{od}/replays"));
-                            let _ = std::fs::write(&path, sc.to_text());
-                            println!("VIOLATION property={pid} replay={path}");
-                            println!("  class=hang (no return to the executor within 10 s)");
-                            std::process::exit(1);
-                        }
+const BLOCK: u64 = 256;
+const HANG_MS: u64 = 10_000;
+
+fn worker(sh: Arc<Shared>, wi: usize) {
+    let p = sh.p;
+    let mut st = Stats::default();
+    let mut evals = 0u64;
+    let mut skipped = 0u64;
+    let mut bad: Option<(u64, Scenario, String, String)> = None;
+    'outer: loop {
+        let lo = sh.next.fetch_add(BLOCK, Ordering::Relaxed);
+        if lo >= sh.budget {
+            break;
+        }
+        let hi = (lo + BLOCK).min(sh.budget);
+        for i in lo..hi {
+            if i > sh.first_bad.load(Ordering::Relaxed) {
+                break;
+            }
+            sh.slots[wi].start.store(sh.t0.elapsed().as_millis() as u64, Ordering::Relaxed);
+            sh.slots[wi].idx.store(i + 1, Ordering::Relaxed);
+            let sc_seed = derive(sh.seed, i);
+            let sc = p.generate(sc_seed, sh.thorough);
+            let v = p.check(&sc, &mut st);
+            if sh.slots[wi].abandoned.load(Ordering::Relaxed) {
+                // the watchdog has written this worker off (and counted the scenario as hung)
+                break 'outer;
+            }
+            evals += 1;
+            match v {
+                Verdict::Held { nontrivial, sig } => {
+                    st.sigs.push(sig);
+                    if nontrivial {
+                        st.nontrivial_sigs.push(sig);
+                    }
+                    // a few samples, chosen by index only
+                    if i < 3 || (nontrivial && i % 997 == 0 && i < 20_000) {
+                        st.samples.push(sample_json(&sc));
                     }
                 }
-            });
-        }
-        let mut handles = Vec::new();
-        for wi in 0..workers {
-            let next = next.clone();
-            let first_bad = first_bad.clone();
-            let results = results.clone();
-            let watch = watch.clone();
-            handles.push(s.spawn(move || {
-                let mut st = Stats::default();
-                let mut evals = 0u64;
-                let mut skipped = 0u64;
-                let mut bad: Option<(u64, Scenario, String, String)> = None;
-                loop {
-                    let lo = next.fetch_add(BLOCK, Ordering::Relaxed);
-                    if lo >= budget {
-                        break;
-                    }
-                    let hi = (lo + BLOCK).min(budget);
-                    for i in lo..hi {
-                        if i > first_bad.load(Ordering::Relaxed) {
-                            break;
-                        }
-                        watch.slots[wi].1.store(watch.start.elapsed().as_millis() as u64, Ordering::Relaxed);
-                        watch.slots[wi].0.store(i + 1, Ordering::Relaxed);
-                        let sc_seed = derive(seed, i);
-                        let sc = p.generate(sc_seed, thorough);
-                        let v = p.check(&sc, &mut st);
-                        evals += 1;
-                        match v {
-                            Verdict::Held { nontrivial, sig } => {
-                                st.sigs.push(sig);
-                                if nontrivial {
-                                    st.nontrivial_sigs.push(sig);
-                                }
-                                // a few samples, chosen by index only
-                                if i < 3 || (nontrivial && i % 997 == 0 && i < 20_000) {
-                                    st.samples.push(sample_json(&sc));
-                                }
-                            }
-                            Verdict::Skip(why) => {
-                                skipped += 1;
-                                st.bump(why);
-                            }
-                            Verdict::Violation { class, detail } => {
-                                first_bad.fetch_min(i, Ordering::Relaxed);
-                                if bad.as_ref().map(|b| i < b.0).unwrap_or(true) {
-                                    bad = Some((i, sc, class, detail));
-                                }
-                            }
-                        }
-                    }
-                    watch.slots[wi].0.store(0, Ordering::Relaxed);
+                Verdict::Skip(why) => {
+                    skipped += 1;
+                    st.bump(why);
                 }
-                results.lock().unwrap().push((st, evals, skipped, bad));
-            }));
+                Verdict::Violation { class, detail } => {
+                    sh.first_bad.fetch_min(i, Ordering::Relaxed);
+                    if bad.as_ref().map(|b| i < b.0).unwrap_or(true) {
+                        bad = Some((i, sc, class, detail));
+                    }
+                }
+            }
         }
-        for h in handles {
-            let _ = h.join();
-        }
-        watch.done.store(true, Ordering::Relaxed);
+        sh.slots[wi].idx.store(0, Ordering::Relaxed);
+    }
+    sh.slots[wi].idx.store(0, Ordering::Relaxed);
+    sh.results.lock().unwrap().push((st, evals, skipped, bad));
+    if !sh.slots[wi].abandoned.load(Ordering::Relaxed) {
+        sh.live.fetch_sub(1, Ordering::SeqCst);
+    }
+}
+
+/// Runs `budget` scenarios on `workers` threads.  The calling thread is the
+/// watchdog (the only use of real time; it never influences a scenario): a
+/// scenario that has not returned to the executor for 10 s is a hang.  For
+/// C05 that is the violation; every other check counts it as skipped
+/// ("C05's subject"), abandons the stuck thread and carries on with a fresh one.
+pub fn run_batch(p: &'static dyn Prop, seed: u64, thorough: bool, budget: u64, workers: usize, out_dir: &str) -> BatchResult {
+    let t0 = Instant::now();
+    const SPARE: usize = 24;
+    let sh = Arc::new(Shared {
+        p,
+        seed,
+        thorough,
+        budget,
+        next: AtomicU64::new(0),
+        first_bad: AtomicU64::new(u64::MAX),
+        live: AtomicU64::new(workers as u64),
+        slots: (0..workers + SPARE).map(|_| Slot { idx: AtomicU64::new(0), start: AtomicU64::new(0), abandoned: AtomicBool::new(false) }).collect(),
+        results: Mutex::new(Vec::new()),
+        t0,
     });
+    for wi in 0..workers {
+        let sh2 = sh.clone();
+        std::thread::spawn(move || worker(sh2, wi));
+    }
+    let mut used_slots = workers;
+    let mut hangs: Vec<u64> = Vec::new();
+    let mut nap = 1u64;
+    while sh.live.load(Ordering::SeqCst) > 0 {
+        std::thread::sleep(std::time::Duration::from_millis(nap));
+        nap = (nap * 2).min(100);
+        let now = t0.elapsed().as_millis() as u64;
+        for wi in 0..used_slots {
+            let slot = &sh.slots[wi];
+            let i = slot.idx.load(Ordering::Relaxed);
+            if i == 0 || slot.abandoned.load(Ordering::Relaxed) || now <= slot.start.load(Ordering::Relaxed) + HANG_MS {
+                continue;
+            }
+            let sc_seed = derive(seed, i - 1);
+            if p.id() == "C05" {
+                let mut sc = p.generate(sc_seed, thorough);
+                sc.class = "hang".into();
+                let path = format!("{out_dir}/replays/C05-{sc_seed}.replay");
+                let _ = std::fs::create_dir_all(format!("{out_dir}/replays"));
+                let _ = std::fs::write(&path, sc.to_text());
+                println!("VIOLATION property=C05 replay={path}");
+                println!("  class=hang");
+                println!("  stream: {}", crate::scenario::show(&sc.bytes()));
+                println!("  the library did not return to the executor within 10 s (scenario index {}): it loops without consuming input", i - 1);
+                std::process::exit(1);
+            }
+            slot.abandoned.store(true, Ordering::Relaxed);
+            sh.live.fetch_sub(1, Ordering::SeqCst);
+            hangs.push(i - 1);
+            println!("NOTE: scenario index {} (seed {sc_seed}) did not return within 10 s; hangs are C05's subject, the scenario is skipped and its thread abandoned", i - 1);
+            if used_slots >= sh.slots.len() {
+                println!("HARNESS ERROR: {} scenarios hung; giving up (the library loops without consuming input - see the C05 check)", hangs.len());
+                std::process::exit(2);
+            }
+            let (sh2, nw) = (sh.clone(), used_slots);
+            used_slots += 1;
+            sh.live.fetch_add(1, Ordering::SeqCst);
+            std::thread::spawn(move || worker(sh2, nw));
+        }
+    }
 
     let mut stats = Stats::default();
     let mut evaluations = 0;
     let mut skipped = 0;
     let mut violation: Option<(u64, Scenario, String, String)> = None;
-    let mut parts = std::mem::take(&mut *results.lock().unwrap());
+    let mut parts = std::mem::take(&mut *sh.results.lock().unwrap());
     // merge in a worker-independent way: counters are sums, sets are sorted
     for (st, e, sk, bad) in parts.drain(..) {
         stats.merge(st);
@@ -210,6 +250,11 @@ pub fn run_batch(p: &dyn Prop, seed: u64, thorough: bool, budget: u64, workers: 
                 violation = Some(b);
             }
         }
+    }
+    for _ in &hangs {
+        evaluations += 1;
+        skipped += 1;
+        stats.bump("skip:hang(C05)");
     }
     stats.sigs.sort_unstable();
     stats.sigs.dedup();
